@@ -142,3 +142,40 @@ func simSetTag(t uint64) { getg().simTag = t }
 
 //go:linkname simGetTag
 func simGetTag() uint64 { return getg().simTag }
+
+// simWallDeadline (real monotonic clock, ns) bounds a run from inside the
+// runtime: when every goroutine of the bubble is blocked for good (a deadlock
+// of the system under test) while timers keep firing without waking anybody,
+// the synctest root goroutine advances virtual time in a loop that never
+// enters the scheduler, so an ordinary real-time watchdog timer would starve.
+var simWallDeadline int64
+var simIdleLoops uint64
+
+//go:linkname simSetWallLimit
+func simSetWallLimit(ns int64) {
+	if ns == 0 {
+		simWallDeadline = 0
+		return
+	}
+	simWallDeadline = nanotime() + ns
+}
+
+// simVirtualCap: no run simulates more than a few hours; a bubble whose clock
+// passes this instant (2001-01-01; bubbles start at 2000-01-01) is running away
+// (everything blocked for good, only far-apart timers left).
+const simVirtualCap = 978307200 * 1e9
+
+func simIdleLoopCheck(next int64) {
+	if simWallDeadline == 0 {
+		return
+	}
+	if next > simVirtualCap {
+		simWallDeadline = 0
+		throw("VERIF-WATCHDOG: virtual time ran away (nothing runnable, only timers left)")
+	}
+	simIdleLoops++
+	if simIdleLoops&1023 == 0 && nanotime() > simWallDeadline {
+		simWallDeadline = 0
+		throw("VERIF-WATCHDOG: the run exceeded its wall limit while the bubble was idle (virtual time advancing, nothing runnable)")
+	}
+}
